@@ -392,7 +392,12 @@ class Tensor(Funsor, metaclass=TensorMeta):
             probs = probs / np.sum(probs, -1, keepdims=True)
             s = np.cumsum(probs, -1)
             r = np.random.rand(*shape)
-            flat_sample = np.sum(s < np.expand_dims(r, -1), axis=-1)
+            # Count cells whose cumulative mass is <= r, so that a draw that
+            # hits a breakpoint (notably r == 0) skips zero-mass cells, and stop
+            # at the last cell that adds mass in case r >= s[-1] (s[-1] may
+            # round below 1).
+            flat_sample = np.sum(s <= np.expand_dims(r, -1), axis=-1)
+            flat_sample = np.minimum(flat_sample, np.sum(s < s[..., -1:], axis=-1))
 
         assert flat_sample.shape == sample_shape + batch_shape
         results = []
